@@ -53,9 +53,9 @@ package main
 
 import (
 	"fmt"
-	"os"
 	"go/ast"
 	"go/token"
+	"os"
 	"regexp"
 	"strconv"
 	"strings"
